@@ -322,21 +322,53 @@ def rule_pathlib_norm(ctx: Ctx, rule: str) -> None:
                    'separator from every path longer than one character')
     repo = ctx.repo
     fi = repo.func('glob', 'Glob._pathlib_norm')
-    rets = [r for r in walk_no_nested(fi.node) if isinstance(r, ast.Return)]
-    ok = False
-    got = 'no conditional return'
-    if len(rets) == 1 and isinstance(rets[0].value, ast.IfExp):
-        e = rets[0].value
-        test = e.test
-        got = norm_src(e)
-        conj = test.values if isinstance(test, ast.BoolOp) and isinstance(test.op, ast.And) else [test]
-        lens = [c for c in conj if isinstance(c, ast.Compare) and norm_src(c.left) == 'len(path)']
-        rest = [norm_src(c) for c in conj if c not in lens]
-        bound = None
-        if len(lens) == 1 and isinstance(lens[0].comparators[0], ast.Constant):
-            k = lens[0].comparators[0].value
-            bound = {ast.Gt: k + 1, ast.GtE: k}.get(type(lens[0].ops[0]))
-        ok = bound == 2 and rest == ['path[-1:] in self.seps'] and norm_src(e.body) == 'path[:-1]' and norm_src(e.orelse) == 'path'
+    from ..symeval import SymEval, Opaque, Obj, _tag, focus
+    pars = [p for p in fi.params() if p != 'self']
+    if len(pars) != 1:
+        raise AnalysisError('Glob._pathlib_norm: one parameter expected')
+    ev = SymEval(repo, inline=False)
+    paths = ev.tabulate(fi, {pars[0]: Opaque('path')}, Obj(('glob', 'Glob'), {}))
+    X = 'self.re_pathlib_norm.sub(self.empty, path)'
+
+    def long_enough(atom: str, val: bool) -> bool | None:
+        """Truth of `len(X) >= 2` implied by the decided length comparison (None: not a length test of X against a constant)."""
+        try:
+            e = ast.parse(atom.replace(X, 'X'), mode='eval').body
+        except SyntaxError:
+            return None
+        if not (isinstance(e, ast.Compare) and len(e.ops) == 1):
+            return None
+        l, r, op = e.left, e.comparators[0], type(e.ops[0])
+        if isinstance(l, ast.Constant):
+            l, r, op = r, l, {ast.Lt: ast.Gt, ast.LtE: ast.GtE, ast.Gt: ast.Lt, ast.GtE: ast.LtE}.get(op, op)
+        if not (norm_src(l) == 'len(X)' and isinstance(r, ast.Constant) and isinstance(r.value, int)):
+            return None
+        k = r.value
+        lo = {ast.Gt: k + 1, ast.GtE: k}.get(op)          # true  <=> len >= lo
+        hi = {ast.Lt: k - 1, ast.LtE: k}.get(op)          # true  <=> len <= hi
+        if lo is not None:
+            return val if lo == 2 else None
+        if hi is not None:
+            return (not val) if hi == 1 else None
+        return None
+    bad = []
+    for p in paths:
+        focus(p)
+        d = dict(p.decisions)
+        le = [long_enough(k, v) for k, v in d.items() if 'len(' in k]
+        tail = [v for k, v in d.items() if k in (f'{X}[-1:] in self.seps', f'{X}.endswith(self.seps)')]
+        other = [k for k in d if 'len(' not in k and k not in (f'{X}[-1:] in self.seps', f'{X}.endswith(self.seps)')]
+        known = (len(le) == 1 and le[0] is not None) or (not le and tail == [False])
+        strip = bool(le and le[0]) and tail == [True] if le else False
+        if not le and tail == [True]:
+            known = False
+        if le and le[0] and len(tail) != 1:
+            known = False
+        want = f'{X}[:-1]' if strip else X
+        if other or not known or _tag(p.ret) != want:
+            bad.append(f'{d} -> {_tag(p.ret)[:80]}')
+    ok = len(paths) >= 3 and not bad
+    got = f'{len(paths)} rows agree' if ok else (bad[0] if bad else f'{len(paths)} rows')
     ctx.ob(rule, 'glob:Glob._pathlib_norm/strip-rule', ok, repo.loc('glob', fi.node), 'path[:-1] if len(path) >= 2 and path[-1:] in self.seps else path', got,
            witness="Path('.').glob(['*', '*/']) must not yield the one-letter directory `a` twice")
     subs = [c for c in walk_no_nested(fi.node) if isinstance(c, ast.Call) and norm_src(c.func) == 'self.re_pathlib_norm.sub']
@@ -572,10 +604,12 @@ def rule_lookahead_putback(ctx: Ctx, rule: str) -> None:
         fi = repo.func(WP, qn)
         par = enclosing_map(fi.node)
         for w in [x for x in walk_no_nested(fi.node) if isinstance(x, ast.While)]:
-            if not any(isinstance(s, ast.Assign) and norm_src(s) == 'c = next(i)' for s in w.body):
+            # a scan loop: the variable tested by the loop is re-read from the iterator in the body (any names)
+            adv = [s for s in w.body if isinstance(s, ast.Assign) and len(s.targets) == 1 and isinstance(s.targets[0], ast.Name) and
+                   isinstance(s.value, ast.Call) and norm_src(s.value.func) == 'next' and len(s.value.args) == 1]
+            if not adv or isinstance(w.test, ast.Constant) or adv[0].targets[0].id not in {x.id for x in ast.walk(w.test) if isinstance(x, ast.Name)}:
                 continue
-            if isinstance(w.test, ast.Constant):
-                continue
+            it = norm_src(adv[0].value.args[0])
             n += 1
             blk = par.get(id(w))
             body = None
@@ -584,8 +618,9 @@ def rule_lookahead_putback(ctx: Ctx, rule: str) -> None:
                 if isinstance(seq, list) and w in seq:
                     body = seq
             nxt = body[body.index(w) + 1] if body is not None and body.index(w) + 1 < len(body) else None
-            ok = nxt is not None and isinstance(nxt, ast.Expr) and norm_src(nxt.value) == 'i.rewind(1)'
-            ctx.ob(rule, f'{WP}:{qn}/putback[{norm_src(w.test)}]', ok, repo.loc(WP, w), 'i.rewind(1) right after the scan loop', norm_src(nxt)[:50] if nxt is not None else 'nothing follows',
+            ok = nxt is not None and isinstance(nxt, ast.Expr) and norm_src(nxt.value) == f'{it}.rewind(1)'
+            kind = ''.join(sorted({repr(c.value) for c in ast.walk(w.test) if isinstance(c, ast.Constant)}))
+            ctx.ob(rule, f'{WP}:{qn}/putback[{kind}]', ok, repo.loc(WP, w), 'i.rewind(1) right after the scan loop', norm_src(nxt)[:50] if nxt is not None else 'nothing follows',
                    witness="globmatch('a/b', 'a//b') / fnmatch('ab', '**b'): the character after the run would be swallowed")
     ctx.floor(rule, 'scan loops', n, 3)
 
